@@ -633,6 +633,222 @@ def explore_multicall(chk, logdir, ref, cases, meta, counters):
     return n_eval
 
 
+
+# ------------------------------------------------- extension namespace + HTTP framing
+
+def explore_ext(chk, wd, logdir, ref, counters):
+    """A third-party namespace registered through the real make_http_servers /
+    rpcinterface_factories path: closure and introspection of every listed
+    method, single and inside multicall."""
+    from c12_world import make_world
+    from c12_http import HttpBed, EXT_PUBLIC
+    from supervisor.xmlrpc import Faults
+    table = set(v for k, v in vars(Faults).items() if not k.startswith('_'))
+    n = 0
+    for mood in (1, 0, -1):
+        w = make_world(logdir, 0, mood)
+        ref[0] = w
+        bed = HttpBed(w, wd)
+        try:
+            root = bed.handler.rpcinterface
+            ext = root.ext
+            listed, _ = w.call_xml('system.listMethods', ())
+            base = None
+            if bad_answer(listed) or listed[0] != 'value':
+                chk.violation({'kind': BAD_KIND, 'method_name': 'system.listMethods', 'params': '()', 'namespaces': 'supervisor+ext+system',
+                               'xml': repr(listed)})
+                continue
+            names = listed[1]
+            ext_listed = sorted(x for x in names if x.startswith('ext.'))
+            if ext_listed != EXT_PUBLIC or names != sorted(names):
+                chk.violation({'kind': 'system.listMethods of an extension namespace is not its public methods',
+                               'listed': ext_listed, 'expected': EXT_PUBLIC})
+            # closure on the extension namespace: every attribute name of the object and its class
+            attrs = sorted(set(dir(ext)) | set(vars(ext)) | set(vars(type(ext))))
+            for a in attrs + ['nope', '', 'documented.__call__', 'ping.__self__']:
+                name = 'ext.%s' % a
+                params = ()
+                before = w.snapshot()
+                res, _ = w.call_direct(name, params)
+                n += 1
+                chk.dist('ext:name')
+                if name in EXT_PUBLIC:
+                    ok = res[0] in ('value', 'fault') and (res[0] == 'value' or res[1] in table)
+                else:
+                    ok = res == ('fault', Faults.UNKNOWN_METHOD) and w.snapshot() == before
+                if not ok:
+                    chk.violation({'kind': 'a name outside the public API was not refused cleanly' if name not in EXT_PUBLIC else BAD_KIND,
+                                   'root': 'RootRPCInterface with extension namespace', 'method_name': name, 'params': [],
+                                   'mood': mood, 'answer': repr(res)})
+                if xml_safe(name) and a:
+                    r2 = bed.post(name, params)['answer']
+                    r1 = ('http', 500) if res[0] == 'exception' else (res[0], norm(res[1]))
+                    if (r2[0], norm(r2[1])) != r1 and not (r1[0] == 'value' and callable(res[1])):
+                        chk.violation({'kind': BAD_KIND if bad_answer(r2) else 'HTTP channel and handler dispatch disagree',
+                                       'method_name': name, 'params': [], 'mood': mood, 'direct': repr(res), 'http': repr(r2)})
+            # introspection of EVERY listed method, single ...
+            helps, sigs = {}, {}
+            for m in names + ['nope.nope', 'ext._secret', 'ext.version', u'ext.pi\u00f1g', '']:
+                for which, store, shape in (('system.methodHelp', helps, str), ('system.methodSignature', sigs, list)):
+                    r, _ = w.call_xml(which, (m,))
+                    n += 1
+                    chk.dist('ext:introspect')
+                    store[m] = r
+                    good = (r[0] == 'value' and isinstance(r[1], shape)) or \
+                           (r[0] == 'fault' and r[1] == Faults.SIGNATURE_UNSUPPORTED)
+                    if m not in names and r != ('fault', Faults.SIGNATURE_UNSUPPORTED):
+                        good = False
+                    if which == 'system.methodHelp' and m in names and r[0] != 'value':
+                        good = False
+                    if not good:
+                        chk.violation({'kind': BAD_KIND if bad_answer(r) else 'introspection answer is not of the documented shape',
+                                       'method_name': which, 'params': repr((m,)), 'mood': mood, 'xml': repr(r),
+                                       'namespaces': 'supervisor+ext+system'})
+            # ... and inside one multicall (also through the real channel)
+            structs = []
+            expect = []
+            for m in names:
+                structs.append({'methodName': 'system.methodHelp', 'params': [m]})
+                expect.append(helps[m])
+                structs.append({'methodName': 'system.methodSignature', 'params': [m]})
+                expect.append(sigs[m])
+            structs.append({'methodName': 'ext.documented', 'params': [u'w\u00f6rld']})
+            expect.append(('value', u'h\u00e9llo w\u00f6rld'))
+            structs.append({'methodName': 'ext.later', 'params': [3]})
+            expect.append(('value', u'done \u00e9'))
+            structs.append({'methodName': 'ext.later', 'params': [-2]})
+            expect.append(('fault', Faults.FAILED))
+            structs.append({'methodName': 'ext._secret', 'params': []})
+            expect.append(('fault', Faults.UNKNOWN_METHOD))
+            structs.append({'methodName': 'ext.ping', 'params': []})
+            expect.append(('value', 'pong'))
+            for path in ('handler', 'channel-close', 'channel-keepalive'):
+                if path == 'handler':
+                    r, _ = w.call_xml('system.multicall', (structs,))
+                else:
+                    r = bed.post('system.multicall', (structs,), connection='close' if path == 'channel-close' else None,
+                                 k=997)['answer']
+                n += 1
+                chk.dist('ext:multicall')
+                got = None
+                if r[0] == 'value' and isinstance(r[1], list) and len(r[1]) == len(expect):
+                    got = [('fault', e['faultCode']) if isinstance(e, dict) and set(e) == {'faultCode', 'faultString'}
+                           else ('value', e) for e in r[1]]
+                if got is None or [(g[0], norm(g[1])) for g in got] != [(e[0], norm(e[1])) for e in expect]:
+                    firstbad = None
+                    if got is not None:
+                        for i, (g, e) in enumerate(zip(got, expect)):
+                            if (g[0], norm(g[1])) != (e[0], norm(e[1])):
+                                firstbad = {'call': structs[i], 'multicall': repr(g), 'single': repr(e)}
+                                break
+                    chk.violation({'kind': BAD_KIND if bad_answer(r) else 'system.multicall differs from the same calls issued one after another',
+                                   'method_name': 'system.multicall', 'path': path, 'mood': mood, 'first_difference': firstbad,
+                                   'params': repr(structs)[:3000], 'answer': repr(r)[:600]})
+        finally:
+            bed.close()
+    return n
+
+
+HTTP_CALLS = [
+    # (method, params, setup)                                      approximate size of the answer
+    ('supervisor.getState', (), None),                                       # ~200 B
+    ('supervisor.getProcessInfo', ('nope',), None),                          # fault, ~250 B
+    ('supervisor.getProcessInfo', (u'n\u00f6pe',), None),                    # fault with non-ASCII text
+    ('supervisor.getAllProcessInfo', (), None),                              # ~3.5 KB
+    ('supervisor.readLog', (0, 0), 'mid'),                                   # ~5 KB
+    ('supervisor.readLog', (0, 0), 'big'),                                   # ~60 KB
+    ('supervisor.readLog', (-4096, 0), 'big'),
+    ('supervisor.getAllProcessInfo', (), 'many'),                            # ~60 KB
+    ('supervisor.getAllConfigInfo', (), 'many'),
+    ('system.listMethods', (), None),
+    ('system.methodHelp', ('supervisor.tailProcessStdoutLog',), None),
+    # deferred answers
+    ('supervisor.startProcess', ('g1:p2',), None),
+    ('supervisor.stopProcess', ('g1:p1',), None),
+    ('supervisor.startAllProcesses', (), 'many'),                            # deferred AND large
+    ('supervisor.stopAllProcesses', (), None),
+    ('supervisor.startProcessGroup', (u'gr\u00fc',), None),
+    ('supervisor.clearAllProcessLogs', (), 'many'),
+    ('system.multicall', ([{'methodName': 'supervisor.readLog', 'params': [0, 0]},
+                           {'methodName': 'supervisor.startProcess', 'params': ['g1:p2']},
+                           {'methodName': 'supervisor.getAllProcessInfo', 'params': []},
+                           {'methodName': 'nope', 'params': []}],), 'big'),
+    ('ext.later', (3,), None), ('ext.later', (-1,), None), ('ext.documented', (u'\u00fc' * 3000,), None),
+]
+FRAMINGS = [('1.1', None), ('1.1', 'close'), ('1.1', 'keep-alive'), ('1.0', None), ('1.0', 'keep-alive')]
+
+
+def _setup(w, setup):
+    if setup == 'mid':
+        w.use_big_log('mid.log')
+    elif setup == 'big':
+        w.use_big_log('big.log')
+    elif setup == 'many':
+        w.add_processes(110)
+
+
+def explore_http(chk, wd, logdir, ref, counters):
+    """The answer as an HTTP client receives it from the real
+    deferring_http_channel: status 200, Content-Length = bytes received, body =
+    the value/fault of the handler's dispatch; the connection stays open
+    (keep-alive) or is closed only after the last byte."""
+    from c12_world import make_world
+    from c12_http import HttpBed
+    rng = chk.rng
+    n = 0
+    ks = [1 << 30, 4096, 1500, 700] if chk.tier == 'quick' else [1 << 30, 65536, 4096, 4095, 1500, 700, 512, 211]
+    variants = [0, 5, 7] if chk.tier == 'quick' else [0, 1, 3, 5, 6, 7, 9]
+    for method, params, setup in HTTP_CALLS:
+        for variant in variants:
+            if method.startswith('supervisor.startProcessGroup') and variant not in (5, 6):
+                continue
+            # reference: the handler's dispatch on an identical world
+            w0 = make_world(logdir, variant, 1)
+            ref[0] = w0
+            _setup(w0, setup)
+            bed0 = HttpBed(w0, wd)
+            try:
+                direct, _ = w0.call_direct(method, params, max_polls=1000)
+            finally:
+                bed0.close()
+            if direct[0] == 'exception':
+                direct = ('http', 500)
+            framings = FRAMINGS if variant == variants[0] else [rng.choice(FRAMINGS), ('1.1', 'close')]
+            for version, conn in framings:
+                for k in (ks if variant == variants[0] else [rng.choice(ks)]):
+                    w = make_world(logdir, variant, 1)
+                    ref[0] = w
+                    _setup(w, setup)
+                    bed = HttpBed(w, wd)
+                    try:
+                        out = bed.post(method, params, version=version, connection=conn, k=k)
+                        keep = (version == '1.1' and conn != 'close') or (version == '1.0' and conn == 'keep-alive')
+                        second = None
+                        if keep and not out['closed'] and out['error'] is None:
+                            second = bed.post('supervisor.getState', (), version=version, connection=conn, k=k, reuse=True)
+                    finally:
+                        bed.close()
+                    n += 1
+                    size = out.get('received') or 0
+                    chk.dist('http:%s:%s:%s' % ('HTTP/' + version, conn or 'default',
+                                                '<1K' if size < 1024 else ('<8K' if size < 8192 else '>=8K')))
+                    rec = {'method_name': method, 'params': repr(params)[:300], 'setup': setup, 'variant': variant,
+                           'http_version': version, 'connection_header': conn, 'bytes_accepted_per_send': k,
+                           'client_received': repr(out['answer'])[:300], 'status': out['status'], 'content_length': out['declared'],
+                           'body_bytes_received': out['received'], 'connection_closed': out['closed'],
+                           'handler_dispatch': repr(direct)[:300]}
+                    a = out['answer']
+                    if bad_answer(a) and not (a == ('http', 500) and direct == ('http', 500)):
+                        chk.violation(dict(rec, kind=BAD_KIND))
+                    elif (a[0], norm(a[1])) != (direct[0], norm(direct[1])):
+                        chk.violation(dict(rec, kind='HTTP channel and handler dispatch disagree'))
+                    elif keep and (out['closed'] or second is None or second['answer'][0] != 'value'):
+                        chk.violation(dict(rec, kind='keep-alive connection was closed or unusable after the answer',
+                                           second_request=repr(second and second['answer'])))
+                    elif not keep and not out['closed']:
+                        chk.violation(dict(rec, kind='connection was not closed after a close/HTTP-1.0 request'))
+    return n
+
 # ------------------------------------------------------------------- main
 
 def _run(chk, wd, proved):
@@ -675,8 +891,11 @@ def _run(chk, wd, proved):
     t2 = time.time()
     multi_cases, multi_meta = [], []
     n_multi = explore_multicall(chk, logdir, ref, multi_cases, multi_meta, counters)
+    n_ext = explore_ext(chk, wd, logdir, ref, counters)
+    n_http = explore_http(chk, wd, logdir, ref, counters)
     t3 = time.time()
-    chk.note('seconds: names %.1f, args %.1f, multicall %.1f' % (t1 - t0, t2 - t1, t3 - t2))
+    chk.note('seconds: names %.1f, args %.1f, multicall+ext+http %.1f' % (t1 - t0, t2 - t1, t3 - t2))
+    chk.note('extension-namespace calls %d, HTTP-channel requests %d' % (n_ext, n_http))
 
     # listMethods through the full XML path is the generated list the theorems speak about
     w = pool.get(0, 1, 1)
@@ -709,7 +928,7 @@ def _run(chk, wd, proved):
         chk.violation({'kind': 'proof obligation no longer checks', 'detail': chk.proof_failure,
                        'file': 'coq/props/C12.v'}, nofail=not chk.violations)
     cov = chk.coverage
-    cov['evaluations'] = n_names + n_args + n_multi
+    cov['evaluations'] = n_names + n_args + n_multi + n_ext + n_http
     cov['traces_validated_against_impl'] = total
     distinct = set()
     for m in name_meta:
@@ -721,7 +940,7 @@ def _run(chk, wd, proved):
                    'process-state layouts x typed argument tuples + wrong arities, each through handler dispatch and full XML path; '
                    'multicall: %d random compositions vs. the same calls issued sequentially; distinct = distinct (answer prefix, '
                    'state-changed) pairs plus distinct (length, polls) multicall shapes'
-                   % (n_split, n_args, 10, n_multi))
+                   % (n_split, n_args, 12, n_multi))
     cov['samples'] = name_meta[5:7] + name_meta[n_split + 10:n_split + 12] + multi_meta[3:5]
     for k, v in sorted(counters.items()):
         chk.dist('outcome:' + k, v)
@@ -763,6 +982,8 @@ def _explore_without_model(chk, wd):
     explore_names(chk, pool, facts, c, m)
     explore_args(chk, pool, facts, c, m, counters)
     explore_multicall(chk, logdir, ref, [], [], counters)
+    explore_ext(chk, wd, logdir, ref, counters)
+    explore_http(chk, wd, logdir, ref, counters)
     chk.coverage['evaluations'] = len(c)
     chk.coverage['rule'] = 'translator rejected the source: model-independent assertions only'
 
